@@ -71,8 +71,18 @@ _TABLE_METHODS = {"cumsum", "cumprod", "prod", "copy", "get", "keys", "items", "
 
 IDENTITY_EXT = {
     "numpy.array", "numpy.asarray", "numpy.asanyarray", "numpy.ascontiguousarray", "float", "numpy.float64",
-    "copy.copy", "copy.deepcopy", "list", "tuple", "numpy.atleast_1d", "numpy.squeeze",
+    "copy.copy", "copy.deepcopy", "list", "tuple", "numpy.atleast_1d", "numpy.squeeze", "numpy.copy",
 }
+
+
+class _Rebind:
+    """`name = expr` after `def name`: a post-definition wrapper, applied like an outermost decorator"""
+
+    def __init__(self, name, expr):
+        self.name, self.expr = name, expr
+        self.func = expr  # so that code which looks at decorator expressions sees the statement's value
+
+    lineno = property(lambda self: getattr(self.expr, "lineno", 0))
 
 
 class _Return(Exception):
@@ -265,14 +275,23 @@ class Interp:
             closure = None
             if fi.parent is not None:
                 closure = it._closure_env_for(fi.parent)
-            if it._effective_decorators(fi) and fi.qualname not in it.opaque:
-                # the entry point is what its decorators make of it
-                # called the way the documentation calls it: positional parameters by position, keyword-only ones by name
-                pos_names = [p for p in fi.params if not (p in ("self", "cls") and fi.cls is not None and p == fi.params[0])]
-                return it.call(FuncV(fi, closure, sv, fi.cls), [bound[p] for p in pos_names if p in bound], {k: bound[k] for k in fi.kwonly if k in bound}, fi.node, None)
-            return it._exec_function(fi, bound, sv, closure, fi.cls)
+            return it.enter(fi, bound, sv, closure, fi.cls)
 
         return self.explore(run)
+
+    def enter(self, fi, bound, self_val=None, closure=None, owner=None):
+        """Run an analysis entry point with the given parameter values.  A function that is decorated, or re-bound after
+        its definition (`f = wrap(f)`), is what those wrappers make of it: it is then *called* the way the documentation
+        calls it - positional parameters by position, keyword-only ones by name - so that the wrappers are interpreted."""
+        if self._effective_decorators(fi) and fi.qualname not in self.opaque and fi.qualname not in self.stubs:
+            first = fi.params[0] if fi.params else None
+            pos_names = [p for p in fi.params if not (p in ("self", "cls") and fi.cls is not None and p == first)]
+            if all(p in bound for p in pos_names):
+                args = [bound[p] for p in pos_names]
+                if fi.vararg and isinstance(bound.get(fi.vararg), TupV):
+                    args += list(bound[fi.vararg].items)
+                return self.call(FuncV(fi, closure, self_val, owner or fi.cls), args, {k: bound[k] for k in fi.kwonly if k in bound}, fi.node, None)
+        return self._exec_function(fi, bound, self_val, closure, owner)
 
     _SIGNATURES = None
 
@@ -690,7 +709,9 @@ class Interp:
             self.attr_heap[(nf.key(self.to_nf(base)), attr)] = v
 
     def _store_sub(self, base, t, v, env, stmt):
-        idx = self._eval_index(t.slice, env)
+        self._store_index(base, self._eval_index(t.slice, env), v, stmt)
+
+    def _store_index(self, base, idx, v, stmt):
         self.log("store_sub", stmt, base=base, index=idx, value=v)
         if isinstance(base, Buf):
             if isinstance(idx, Num) and nf.as_int(idx.nf) is not None:
@@ -840,10 +861,16 @@ class Interp:
             if name in mod.imports:
                 q = self.P.canonical(mod.imports[name])
                 if q in self.P.functions:
-                    return FuncV(self.P.functions[q], None)
-                if q in self.P.classes:
-                    return ClassV(self.P.classes[q])
-                return ExtV(q)
+                    v = FuncV(self.P.functions[q], None)
+                elif q in self.P.classes:
+                    v = ClassV(self.P.classes[q])
+                else:
+                    v = ExtV(q)
+                for e in mod.rebinds.get(name, ()):  # imported name re-bound at module level: `f = wrap(f)`
+                    renv = Env(None, mod, None)
+                    renv.set(name, v)
+                    v = self.eval(e, renv)
+                return v
             if name in mod.constants:
                 ck = (mod.name, name)
                 if ck not in self._mod_cache:
@@ -1013,6 +1040,11 @@ class Interp:
                 return BoolV("const", not r.a) if r.kind == "const" else BoolV("not", r)
             return r
         sym = {ast.Eq: "==", ast.NotEq: "!=", ast.Lt: "<", ast.LtE: "<=", ast.Gt: ">", ast.GtE: ">="}[type(op)]
+        if sym == "==":
+            # np.arange(n) == k : the mask that selects position k of a length-n vector
+            for x, y in ((a, b), (b, a)):
+                if isinstance(x, Vec) and not x.over and x.gen == nf.sym(J) and isinstance(y, Num):
+                    return BoolV("pos", y.nf, x.length)
         if isinstance(a, SetV) and isinstance(b, SetV) and sym in ("==", "!=") and all(
             isinstance(x, StrV) for x in a.items + b.items
         ):
@@ -1079,7 +1111,10 @@ class Interp:
                     d.fallback.append(vv)
                 continue
             kv = self.eval(k, env)
-            key = kv.s if isinstance(kv, StrV) else nf.show(self.to_nf(kv))
+            if isinstance(kv, BoolV) and kv.kind == "const":
+                key = "True" if kv.a else "False"
+            else:
+                key = kv.s if isinstance(kv, StrV) else nf.show(self.to_nf(kv))
             d.items[key] = self.eval(v, env)
         return d
 
@@ -1217,7 +1252,11 @@ class Interp:
                 return FuncV(m, None, None, None)
             for c in ci.mro():
                 if attr in c.class_attrs:
-                    return self.eval(c.class_attrs[attr], Env(None, c.module, None))
+                    v = self.eval(c.class_attrs[attr], Env(None, c.module, None))
+                    if not attr.startswith("_") and any(b.split(".")[-1] in ("Enum", "IntEnum", "StrEnum", "Flag", "IntFlag") for b in ci.external_bases()):
+                        # an enumeration member: an object with .name and .value
+                        return ExtObj(f"{ci.qualname}.{attr}", {}, node, attrs={"value": v, "name": StrV(attr)})
+                    return v
             return ExtV(f"{ci.qualname}.{attr}")
         if isinstance(base, ExtObj):
             if attr in base.attrs:
@@ -1257,6 +1296,9 @@ class Interp:
         return self._index(base, idx, n)
 
     def _index(self, base, idx, node):
+        if isinstance(base, DictV) and isinstance(idx, BoolV) and set(base.items) == {"True", "False"} and not base.fallback:
+            # a two-entry dispatch table read with a truth value: the elementwise form of  a if P else b
+            return base.items["True"] if self.decide(idx, node) else base.items["False"]
         if isinstance(idx, BoolV):  # boolean mask: elementwise view keeps the term
             if isinstance(base, Buf):
                 # reading a masked buffer under a mask: the part stored under the same predicate, or the fill
@@ -1498,7 +1540,8 @@ class Interp:
             name = ast.unparse(d.func if isinstance(d, ast.Call) else d)
             if name not in self.TRANSPARENT_DECORATORS:
                 out.append(d)
-        return out
+        # `f = expr` after the def re-binds the name: applied after the decorators, with f bound to the function so far
+        return out + [_Rebind(fi.name, e) for e in fi.rebinds]
 
     def call(self, callee, args, kwargs, node, env):
         if isinstance(callee, FuncV) and not callee.raw:
@@ -1509,8 +1552,13 @@ class Interp:
                 fi0 = callee.info
                 target = FuncV(fi0, callee.env, None, callee.owner, raw=True)
                 denv = Env(None, fi0.module, None)
-                for d in reversed(decos):
-                    target = self.call(self.eval(d, denv), [target], {}, node, env)
+                for d in [x for x in reversed(decos) if not isinstance(x, _Rebind)] + [x for x in decos if isinstance(x, _Rebind)]:
+                    if isinstance(d, _Rebind):
+                        renv = Env(None, fi0.module, None)
+                        renv.set(d.name, target)
+                        target = self.eval(d.expr, renv)
+                    else:
+                        target = self.call(self.eval(d, denv), [target], {}, node, env)
                 pre = [callee.self_val] if callee.self_val is not None else []
                 return self.call(target, pre + list(args), kwargs, node, env)
         if isinstance(callee, FuncV):
@@ -1520,7 +1568,7 @@ class Interp:
             if fi.cls is not None and fi.params[:1] == ["cls"] and self_val is None:
                 self_val = ClassV(fi.cls)
             bound = self.bind_internal(fi, args, kwargs, has_self, node)
-            is_opaque = fi.qualname in self.opaque or (fi.cls is not None and fi.name in self.opaque_methods)
+            is_opaque = fi.qualname in self.opaque or (fi.cls is not None and (fi.name in self.opaque_methods or f"{fi.module.name}:{fi.name}" in self.opaque_methods))
             self.log("int_call", node, callee=fi.qualname, args=bound, recv=self_val, inlined=not is_opaque)
             if fi.qualname in self.stubs:
                 return self.stubs[fi.qualname](bound)
@@ -1672,6 +1720,9 @@ class Interp:
                     kwargs = {k: v for k, v in kwargs.items() if k != "axis"}
                 extra = [nf.fn("kw:" + k, self.to_nf(v)) for k, v in sorted(kwargs.items())]
                 return Num(nf.fn(meth, self.to_nf(recv), *[self.to_nf(a) for a in args], *extra))
+        if isinstance(recv, TupV) and meth == "index" and len(args) == 1 and isinstance(args[0], StrV) and all(isinstance(x, StrV) for x in recv.items):
+            if args[0].s in [x.s for x in recv.items]:
+                return const_num([x.s for x in recv.items].index(args[0].s))
         if isinstance(recv, TupV) and recv.is_list:
             if meth == "append" and len(args) == 1:
                 recv.items.append(args[0])
@@ -1744,6 +1795,13 @@ class Interp:
         return nf.show(self.to_nf(recv), 120)
 
     def _call_ext(self, qual, args, kwargs, node, env):
+        out = kwargs.get("out")
+        if isinstance(out, Vec) and qual.startswith("numpy."):
+            # ufunc(..., out=v): the elementwise result is stored into v itself
+            res = self._call_ext(qual, args, {k: v for k, v in kwargs.items() if k != "out"}, node, env)
+            if isinstance(res, Vec):
+                out.gen, out.length, out.over = dict(res.gen), dict(res.length), dict(res.over)
+                return out
         h = _EXT_HANDLERS.get(qual)
         bound = self.bind_ext(qual, args, kwargs)
         if h is not None:
@@ -1871,6 +1929,8 @@ def _h_unary(f):
 
 def _h_identity(it, args, kwargs, bound, node, qual):
     if len(args) >= 1:
+        if qual in ("numpy.array", "numpy.copy", "copy.copy", "copy.deepcopy") and isinstance(args[0], Vec):
+            return args[0].copy()  # a new array: later in-place writes do not reach the original
         return args[0]
     return None
 
@@ -2100,6 +2160,97 @@ def _h_partial(it, args, kwargs, bound, node, qual):
     return None
 
 
+def _h_bool(it, args, kwargs, bound, node, qual):
+    """bool(x): the truth value `if x:` decides on (same partition key)"""
+    if len(args) == 1 and not kwargs:
+        v = args[0]
+        if isinstance(v, BoolV):
+            return v
+        if isinstance(v, NoneV):
+            return BoolV("const", False)
+        if isinstance(v, Num):
+            if nf.is_const(v.nf):
+                return BoolV("const", bool(nf.cval(v.nf)))
+            return BoolV("opaque", nf.show(v.nf, 200))
+    if not args:
+        return BoolV("const", False)
+    return None
+
+
+def _h_set(it, args, kwargs, bound, node, qual):
+    """set(x) / frozenset(x) of a literal sequence of items: the set of those items"""
+    if not args and not kwargs:
+        return SetV([])
+    if len(args) == 1 and isinstance(args[0], (TupV, SetV)):
+        seen, items = set(), []
+        for x in args[0].items:
+            k = x.s if isinstance(x, StrV) else nf.show(it.to_nf(x))
+            if k not in seen:
+                seen.add(k)
+                items.append(x)
+        return SetV(items)
+    return None
+
+
+def _h_zip(it, args, kwargs, bound, node, qual):
+    """zip(s, t, ...) with at least one literal sequence: the literal tuple of (s[k], t[k], ...) up to the shortest literal
+    length (an opaque sequence is taken to be at least that long - as the tuple-unpacking form would require)"""
+    lits = [a for a in args if isinstance(a, TupV) and not a.rowview]
+    if not lits or kwargs or not all(isinstance(a, (TupV, ExtObj, Num)) for a in args):
+        return None
+    if any(isinstance(a, TupV) and a.rowview for a in args):
+        return None
+    n = min(len(a.items) for a in lits)
+    return TupV([TupV([it._index(a, const_num(k), node) for a in args]) for k in range(n)], True)
+
+
+def _h_map(it, args, kwargs, bound, node, qual):
+    """map(f, s, ...) over literal sequences: the literal tuple of the calls f(s[k], ...)"""
+    if len(args) < 2 or kwargs or not all(isinstance(a, TupV) and not a.rowview for a in args[1:]):
+        return None
+    n = min(len(a.items) for a in args[1:])
+    return TupV([it.call(args[0], [a.items[k] for a in args[1:]], {}, node, None) for k in range(n)], True)
+
+
+def _h_sorted(it, args, kwargs, bound, node, qual):
+    """sorted(x[, key=f][, reverse=b]) of a literal sequence whose sort keys are all literal strings or all constant
+    numbers (the keys of a literal dict when x is one): the sorted list"""
+    if len(args) != 1 or set(kwargs) - {"reverse", "key"}:
+        return None
+    x = args[0]
+    if isinstance(x, DictV) and not x.fallback and all(isinstance(k, str) for k in x.items):
+        items = [StrV(k) for k in x.items]
+    elif isinstance(x, (TupV, SetV)) and not getattr(x, "rowview", False):
+        items = list(x.items)
+    else:
+        return None
+    rev = kwargs.get("reverse")
+    if rev is not None and not (isinstance(rev, BoolV) and rev.kind == "const"):
+        return None
+    keyf = kwargs.get("key")
+    keys = [it.call(keyf, [i], {}, node, None) for i in items] if keyf is not None and not isinstance(keyf, NoneV) else items
+    if all(isinstance(k, StrV) for k in keys):
+        ks = [k.s for k in keys]
+    elif all(isinstance(k, Num) and nf.is_const(k.nf) for k in keys):
+        ks = [nf.cval(k.nf) for k in keys]
+    else:
+        return None
+    order = sorted(range(len(items)), key=lambda i: ks[i], reverse=bool(rev.a) if rev is not None else False)
+    return TupV([items[i] for i in order], True)
+
+
+def _h_masked_store(it, args, kwargs, bound, node, qual):
+    """np.place(a, mask, vals) with vals packed by the mask, np.putmask(a, mask, values) with full-size values (the rule
+    on masked helpers checks that shape of use): both are the masked store a[mask] = ..."""
+    if len(args) != 3 or kwargs or not isinstance(args[1], BoolV):
+        return None
+    a, mask, vals = args
+    if qual.endswith("putmask") and not (isinstance(vals, Num) and nf.is_const(vals.nf)):
+        vals = it._index(vals, mask, node)
+    it._store_index(a, mask, vals, node)
+    return NoneV()
+
+
 def _h_mappingproxy(it, args, kwargs, bound, node, qual):
     """types.MappingProxyType(d): a read-only view of d - the same mapping for every read"""
     if len(args) == 1 and not kwargs and isinstance(args[0], DictV):
@@ -2129,6 +2280,24 @@ def _h_isinstance(it, args, kwargs, bound, node, qual):
 
 
 def _h_where(it, args, kwargs, bound, node, qual):
+    if len(args) == 3 and isinstance(args[0], BoolV) and args[0].kind == "pos":
+        # np.where(arange(n) == k, a, b): b with position k replaced by a (scalars broadcast to length n)
+        pos, length = args[0].a, args[0].b
+        a, b = args[1], args[2]
+        if isinstance(b, Vec):
+            out = b.copy()
+        elif isinstance(b, Num):
+            out = Vec(b.nf, length)
+        else:
+            return None
+        if isinstance(a, Vec):
+            val = a.at(pos)
+        elif isinstance(a, Num):
+            val = a.nf
+        else:
+            return None
+        out.over[nf.key(pos)] = (pos, val)
+        return out
     if len(args) == 3 and isinstance(args[0], BoolV):
         # np.where(x < c, c, x) / np.where(x > c, x, c) ... are the elementwise clamps maximum(x, c) / minimum(x, c)
         t = args[0]
@@ -2151,6 +2320,12 @@ def _h_where(it, args, kwargs, bound, node, qual):
 def _h_dict(it, args, kwargs, bound, node, qual):
     if not args:
         return DictV(dict(kwargs))
+    if isinstance(args[0], TupV) and not args[0].rowview and all(
+        isinstance(x, TupV) and len(x.items) == 2 and isinstance(x.items[0], StrV) for x in args[0].items
+    ):
+        d = DictV({x.items[0].s: x.items[1] for x in args[0].items})
+        d.items.update(kwargs)
+        return d
     if isinstance(args[0], DictV):
         d = DictV(dict(args[0].items), list(args[0].fallback))
         d.items.update(kwargs)
@@ -2252,6 +2427,14 @@ _EXT_HANDLERS = {
     "isinstance": _h_isinstance,
     "dict": _h_dict,
     "types.MappingProxyType": _h_mappingproxy,
+    "bool": _h_bool,
+    "zip": _h_zip,
+    "numpy.place": _h_masked_store,
+    "numpy.putmask": _h_masked_store,
+    "map": _h_map,
+    "sorted": _h_sorted,
+    "set": _h_set,
+    "frozenset": _h_set,
 }
 for _q in IDENTITY_EXT:
     _EXT_HANDLERS[_q] = _h_identity
